@@ -41,6 +41,15 @@ check("C05","bounded-exhaustive over the legal in/style/explode table (17 cells)
 check("C06","bounded-exhaustive: (A) every set of <=3 declared media types x 13 Content-Type headers x marker bodies x required: the entry chosen by the documented precedence decides; (B) object bodies in json, urlencoded (5 array encodings), multipart (text and JSON parts) x required lists with readOnly/writeOnly x unparsable field x ExcludeReadOnlyValidations: decoder returns the value, verdict == reference evaluator (request reading)",
  "selection model mc/ref/content.go, reference encoders, reference evaluator with request reading",
  "bounded exhaustive enumeration of request bodies on the real validator against precedence and evaluator models","3 C06")
+check("C07","bounded-exhaustive truth table: 8 security list shapes (operation and document level) x AuthenticationFunc nil/set with every per-call answer explored at call time x path-level and operation-level parameter sets incl. override and same-name-other-location x request values x body x 8 option sets; pass/fail, the multiset of failing parts in multi-error mode and the callback sequence are compared with the model",
+ "truth-table model mc/checks/c07.go written from the property statement",
+ "bounded exhaustive enumeration of configurations and environment (callback) answers on the real validator against a truth-table model","3 C07")
+check("C08","bounded-exhaustive: every set of <=3 response keys x 12 status codes x GET/HEAD x declared/received headers x content types x 6 bodies x option sets; status selection, header rules, content selection and response-reading evaluation are compared with the model; the body must be readable afterwards",
+ "selection models mc/ref/content.go, reference evaluator in response reading; quick tier varies one option at a time",
+ "bounded exhaustive enumeration of responses on the real validator against selection and evaluator models","3 C08")
+check("C09","bounded-exhaustive: every validated document with 1-2 (thorough 1-3) templates over {a,b,{x},{y}} x method sets x 5 server forms; every request path of the path alphabet under matching and non-matching prefixes x 3 methods, origin-form and absolute-form; both routers, legacy under both map orders; four invariants against an independent segment matcher",
+ "independent matcher mc/ref/route.go; server model by listed prefixes; paths with empty segments only for no-panic and operation identity",
+ "bounded exhaustive enumeration of (document, request) on both routers with invariants and an independent matcher","3 C09")
 NA_REASON="check not built yet (work in progress; see DESIGN.md section 5)"
 m={"version":1,"setup_cmd":"bin/setup",
  "hooks":{"guard":"verif","enable":"go build -tags verif -overlay <generated> (bin/check does it on every invocation, regenerating the overlay from /repo's working tree)","baseline_off_cmd":"bin/baseline","source_commits":["4b7cd63"],"add_only":True},
